@@ -18,6 +18,8 @@ import (
 	"strconv"
 	"strings"
 	"sync"
+	"time"
+	"unicode/utf8"
 
 	"github.com/jdillenkofer/pithos/internal/http/server/authorization"
 	"github.com/jdillenkofer/pithos/internal/http/server"
@@ -49,6 +51,7 @@ type c06Env struct {
 	mu      sync.Mutex
 	buckets map[string]string // key-set token -> bucket name
 	uploads map[string]string // parts token -> upload id
+	hists   map[string]*c06Hist
 	nb      int
 }
 
@@ -142,12 +145,29 @@ func (e *c06Env) uploadFor(tok string, parts []int) (storage.BucketName, string)
 	return bn, e.uploads[tok]
 }
 
+// one request; a handler that does not come back within the deadline (e.g. a paging loop inside the
+// server that never advances its marker) is reported as status 0 = non-termination; the request context
+// is cancelled so that its storage calls fail and the loop ends
 func (e *c06Env) get(path string, q url.Values) (int, []byte) {
-	req := httptest.NewRequest("GET", "http://s3.localhost"+path+"?"+q.Encode(), nil)
+	ctx, cancel := context.WithTimeout(context.Background(), 10*time.Second)
+	defer cancel()
+	req := httptest.NewRequest("GET", "http://s3.localhost"+path+"?"+q.Encode(), nil).WithContext(ctx)
 	req.Host = "s3.localhost"
 	rec := httptest.NewRecorder()
-	e.handler.ServeHTTP(rec, req)
-	return rec.Code, rec.Body.Bytes()
+	done := make(chan struct{})
+	go func() {
+		defer func() { recover(); close(done) }()
+		e.handler.ServeHTTP(rec, req)
+	}()
+	select {
+	case <-done:
+		if ctx.Err() != nil {
+			return 0, nil
+		}
+		return rec.Code, rec.Body.Bytes()
+	case <-time.After(15 * time.Second):
+		return 0, nil
+	}
 }
 
 // ---- generator ----
@@ -166,7 +186,12 @@ func c06Key(r *Rng) string {
 			b[i] = c06Alphabet[r.Intn(len(c06Alphabet))]
 		}
 	}
-	return string(b)
+	s := string(b)
+	if r.Chance(6) { // a multi-byte UTF-8 character somewhere
+		i := r.Intn(len(s) + 1)
+		s = s[:i] + r.Pick([]string{"é", "É", "€"}) + s[i:]
+	}
+	return s
 }
 
 func c06KeySet(r *Rng, tier string) []string {
@@ -195,8 +220,8 @@ func c06KeySet(r *Rng, tier string) []string {
 					k = base[:i+1] + c06Key(r)[:1]
 				}
 			}
-			if len(k) > 6 {
-				k = k[:6]
+			for len(k) > 6 || !utf8.ValidString(k) {
+				k = k[:len(k)-1]
 			}
 		}
 		if k == "" || seen[k] {
@@ -215,7 +240,18 @@ func c06Sub(r *Rng, keys []string) string {
 	k := r.Pick(keys)
 	i := r.Intn(len(k) + 1)
 	j := i + r.Intn(len(k)-i+1)
-	return k[i:j]
+	return c06Valid(k[i:j])
+}
+
+// cut to valid UTF-8 (drop a split multi-byte character at either end)
+func c06Valid(s string) string {
+	for len(s) > 0 && !utf8.RuneStart(s[0]) {
+		s = s[1:]
+	}
+	for len(s) > 0 && !utf8.ValidString(s) {
+		s = s[:len(s)-1]
+	}
+	return s
 }
 
 func c06Query(r *Rng, keys []string) (prefix, delim string, marker *string, max int) {
@@ -224,12 +260,16 @@ func c06Query(r *Rng, keys []string) (prefix, delim string, marker *string, max 
 		prefix = ""
 	case k < 8:
 		b := r.Pick(keys)
-		prefix = b[:r.Intn(len(b)+1)]
+		prefix = c06Valid(b[:r.Intn(len(b)+1)])
 	default:
 		prefix = c06Sub(r, keys)
 	}
-	if prefix != "" && r.Chance(18) { // perturb: other case / LIKE metacharacter at one position
-		i := r.Intn(len(prefix))
+	if prefix != "" && r.Chance(18) && prefix[0] < 0x80 { // perturb: other case / LIKE metacharacter at one position
+		i := 0
+		if r.Bool() {
+			for i = r.Intn(len(prefix)); prefix[i] >= 0x80; i-- {
+			}
+		}
 		c := prefix[i : i+1]
 		switch r.Intn(4) {
 		case 0:
@@ -251,12 +291,12 @@ func c06Query(r *Rng, keys []string) (prefix, delim string, marker *string, max 
 	case k < 19:
 		delim = c06Sub(r, keys)
 		if len(delim) > 1 {
-			delim = delim[:1]
+			delim = c06Valid(delim[:1])
 		}
 	default:
 		delim = c06Sub(r, keys)
 		if len(delim) > 2 {
-			delim = delim[:2]
+			delim = c06Valid(delim[:2])
 		}
 	}
 	if r.Chance(45) {
@@ -266,7 +306,7 @@ func c06Query(r *Rng, keys []string) (prefix, delim string, marker *string, max 
 			m = r.Pick(keys)
 		case 1:
 			b := r.Pick(keys)
-			m = b[:r.Intn(len(b)+1)]
+			m = c06Valid(b[:r.Intn(len(b)+1)])
 		case 2:
 			m = r.Pick(keys) + r.Pick([]string{"/", "0", "a"})
 		default:
@@ -311,10 +351,26 @@ func (c06) Gen(r *Rng, tier string, n int) []string {
 			}
 			continue
 		}
+		if r.Chance(42) { // ListObjectVersions / ListMultipartUploads on a write history
+			for _, c := range c06GenHistoryCases(r, 10) {
+				if len(cases) < n {
+					cases = append(cases, c)
+				}
+			}
+			continue
+		}
 		keys := c06KeySet(r, tier)
 		for q := 0; q < perSet && len(cases) < n; q++ {
 			prefix, delim, marker, max := c06Query(r, keys)
-			op := r.Pick([]string{"S", "H1", "H1", "H2", "H2"})
+			op := r.Pick([]string{"S", "H1", "H1", "H2", "H2", "H2b", "H2b", "H2t"})
+			if op == "H2b" && marker == nil && r.Chance(70) { // SDK paginators repeat start-after on every page
+				m := ""
+				if r.Chance(50) {
+					b := r.Pick(keys)
+					m = b[:r.Intn(len(b)+1)]
+				}
+				marker = &m
+			}
 			cases = append(cases, c06Line(op, keys, prefix, delim, marker, max))
 		}
 	}
@@ -457,6 +513,7 @@ type c06ListXML struct {
 	CommonPrefixes        []string `xml:"CommonPrefixes>Prefix"`
 	NextMarker            *string  `xml:"NextMarker"`
 	NextContinuationToken *string  `xml:"NextContinuationToken"`
+	EncodingType          string   `xml:"EncodingType"`
 }
 
 type c06PartsXML struct {
@@ -477,6 +534,9 @@ func (c06) Run(in string, scratch string) Result {
 	env := c06GetEnv(scratch)
 	if f[0] == "P" {
 		return c06RunParts(env, f)
+	}
+	if len(f) == 7 {
+		return c06RunHistory(env, f)
 	}
 	keys := untokList(f[1])
 	prefix, delim := untokBytes(f[2]), untokBytes(f[3])
@@ -557,8 +617,13 @@ func (c06) Run(in string, scratch string) Result {
 	first := true
 	for len(pages) < capPages {
 		q := url.Values{}
-		if f[0] == "H2" {
+		v2 := strings.HasPrefix(f[0], "H2")
+		if v2 {
 			q.Set("list-type", "2")
+		}
+		encURL := len(in)%5 == 0 // some requests ask for encoding-type=url like the SDKs do
+		if encURL {
+			q.Set("encoding-type", "url")
 		}
 		if prefix != "" {
 			q.Set("prefix", prefix)
@@ -571,14 +636,22 @@ func (c06) Run(in string, scratch string) Result {
 			switch {
 			case f[0] == "H1":
 				q.Set("marker", *cur)
+			case first && f[0] == "H2t": // resuming with a stored token
+				q.Set("continuation-token", *cur)
 			case first:
 				q.Set("start-after", *cur)
 			default:
 				q.Set("continuation-token", *cur)
+				if f[0] == "H2b" && marker != nil { // SDK paginators repeat the original start-after
+					q.Set("start-after", *marker)
+				}
 			}
 		}
 		first = false
 		code, body := env.get("/"+bn.String(), q)
+		if code == 0 {
+			return Result{Out: "TIMEOUT", Oracle: "FAIL:the request does not terminate", Tags: tags}
+		}
 		if code != 200 {
 			return Result{Out: "HTTP" + strconv.Itoa(code), Oracle: "FAIL:status " + strconv.Itoa(code), Tags: tags}
 		}
@@ -586,8 +659,16 @@ func (c06) Run(in string, scratch string) Result {
 		if err := xml.Unmarshal(body, &x); err != nil {
 			return Result{Out: "BADXML", Oracle: "FAIL:xml " + err.Error(), Tags: tags}
 		}
+		if x.EncodingType == "url" {
+			for i := range x.Keys {
+				x.Keys[i], _ = url.QueryUnescape(x.Keys[i])
+			}
+			for i := range x.CommonPrefixes {
+				x.CommonPrefixes[i], _ = url.QueryUnescape(x.CommonPrefixes[i])
+			}
+		}
 		next := x.NextMarker
-		if f[0] == "H2" {
+		if v2 {
 			next = x.NextContinuationToken
 		}
 		pages = append(pages, strings.Join([]string{tokList(x.Keys), tokList(x.CommonPrefixes), c06Bool(x.IsTruncated), tokOpt(next)}, "/"))
